@@ -153,15 +153,55 @@ def fl(k):
     return k / 1000.0
 
 
+_SUBCLASSES = {}
+
+
+def sub_classes(family):
+    """application subclasses of the three header classes of a family (a configuration webob allows: results of + are built
+    with self.__class__, operands are recognised with isinstance)"""
+    if family not in _SUBCLASSES:
+        A = ap()
+        _SUBCLASSES[family] = {k: type("My" + CLS[family] + sfx, (getattr(A, CLS[family] + sfx),), {})
+                               for k, sfx in (("valid", "ValidHeader"), ("invalid", "InvalidHeader"), ("noheader", "NoHeader"))}
+    return _SUBCLASSES[family]
+
+
+class StrSub(str):
+    pass
+
+
+class ListSub(list):
+    pass
+
+
+class TupleSub(tuple):
+    pass
+
+
+class DictSub(dict):
+    pass
+
+
 def build_operand(family, op):
-    """JSON operand descriptor -> real Python value / header object"""
+    """JSON operand descriptor -> real Python value / header object.
+    Optional fields: "sub" (header object of an application subclass), "shape" (same denotation, other Python type:
+    strsub / listsub / tuplesub / dictsub / odict / multidict)."""
     t = op["t"]
     if t == "none":
         return None
     if t == "hdr":
+        if op.get("sub"):
+            sc = sub_classes(family)
+            if op["v"] is None:
+                return sc["noheader"]()
+            try:
+                return sc["valid"](op["v"])
+            except ValueError:
+                return sc["invalid"](op["v"])
         return getattr(ap(), CREATE[family])(op["v"])
+    shape = op.get("shape")
     if t == "str":
-        return op["v"]
+        return StrSub(op["v"]) if shape == "strsub" else op["v"]
     ints = op.get("ints", False)
 
     def num(k):
@@ -175,14 +215,19 @@ def build_operand(family, op):
         conv = tuple if op.get("inner", "tuple") == "tuple" else list
         return conv([i[0], num(i[1])] + list(i[2:]))
     if t == "list":
-        return [item(i) for i in op["items"]]
+        l = [item(i) for i in op["items"]]
+        return ListSub(l) if shape == "listsub" else l
     if t == "tuple":
-        return tuple(item(i) for i in op["items"])
+        l = tuple(item(i) for i in op["items"])
+        return TupleSub(l) if shape == "tuplesub" else l
     if t == "dict":
-        d = {}
-        for k, v in op["items"]:
-            d[k] = (num(v[0]), v[1]) if isinstance(v, list) else num(v)
-        return d
+        pairs = [(k, (num(v[0]), v[1]) if isinstance(v, list) else num(v)) for k, v in op["items"]]
+        if shape == "multidict":
+            from webob.multidict import MultiDict
+            return MultiDict(pairs)
+        if shape == "odict":
+            return collections.OrderedDict(pairs)
+        return DictSub(pairs) if shape == "dictsub" else dict(pairs)
     raise ValueError(op)
 
 
@@ -200,9 +245,11 @@ def canon_parsed(family, parsed):
 
 
 def kind_of(family, obj):
-    n = type(obj).__name__
-    base = CLS[family]
-    return {base + "ValidHeader": "valid", base + "InvalidHeader": "invalid", base + "NoHeader": "noheader"}.get(n, "other:" + n)
+    A = ap()
+    for k, sfx in (("valid", "ValidHeader"), ("invalid", "InvalidHeader"), ("noheader", "NoHeader")):
+        if isinstance(obj, getattr(A, CLS[family] + sfx)):
+            return k
+    return "other:" + type(obj).__name__
 
 
 def observe(family, obj):
@@ -213,7 +260,9 @@ def observe(family, obj):
 def snapshot(family, v):
     if hasattr(v, "header_value"):
         return ("hdr", observe(family, v))
-    return ("py", copy.deepcopy(v))
+    if hasattr(v, "items"):
+        return ("map", type(v).__name__, copy.deepcopy(list(v.items())))
+    return ("py", type(v).__name__, copy.deepcopy(v))
 
 
 def is_empty_valid(family, obj):
@@ -234,6 +283,25 @@ def blank_request(env_extra=None):
 
 
 # =========================================================================== oracles (return None or (key, message))
+def strict_warnings(f):
+    """run an oracle with every warning turned into an error: the operations of the statement (create, str, +, copy,
+    property get / set / del) must not depend on the process' warning configuration"""
+    import functools
+    import warnings
+
+    @functools.wraps(f)
+    def g(*a, **k):
+        import webob                      # noqa: import-time warnings of webob's dependencies (cgi) are not the subject
+        import webob.acceptparse          # noqa
+        import webob.multidict            # noqa
+        import webob.request              # noqa
+        with warnings.catch_warnings():
+            warnings.simplefilter("error")
+            return f(*a, **k)
+    return g
+
+
+@strict_warnings
 def oracle_str(family, value):
     """str(h) of a valid header: valid, same elements, fixed point; independent reading agrees."""
     A = ap()
@@ -241,6 +309,10 @@ def oracle_str(family, value):
     h = create(value)
     if kind_of(family, h) != "valid":
         return None
+    hk, hc = create(header_value=value), create(h)      # keyword call; a header object is accepted and copied
+    if observe(family, hk) != observe(family, h) or observe(family, hc) != observe(family, h) or hc is h:
+        return ("create:argument-shape", "%s(header_value=%r) / %s(<header object>) differ from the positional call" %
+                (CREATE[family], value, CREATE[family]))
     try:
         s = str(h)
     except Exception as e:  # noqa
@@ -306,15 +378,20 @@ def oracle_quote(v):
     return None
 
 
+@strict_warnings
 def do_add(family, left, right, mode):
-    """perform the addition on real objects; returns (result or Err, snapshots before, snapshots after)"""
-    lo, ro = build_operand(family, left), build_operand(family, right)
+    """perform the addition on real objects; returns (result or Err, snapshots before, snapshots after, lo, ro).
+    right = {"t": "same"}: the very same object on both sides; mode "kw": the special methods called with other=..."""
+    lo = build_operand(family, left)
+    ro = lo if right["t"] == "same" else build_operand(family, right)
     before = (snapshot(family, lo), snapshot(family, ro))
     try:
         if mode == "iadd":
             x = lo
             x += ro
             res = x
+        elif mode == "kw":
+            res = lo.__add__(other=ro) if hasattr(lo, "header_value") else ro.__radd__(other=lo)
         else:
             res = lo + ro
     except Exception as e:  # noqa
@@ -325,8 +402,12 @@ def do_add(family, left, right, mode):
 
 def oracle_add(family, left, right, mode="add"):
     """left + right where at least one side is a header object"""
+    if mode == "iadd" and left.get("shape") == "listsub":
+        mode = "add"     # `listsub += header` is list.__iadd__ (extends the list by iterating the header): not webob's code
     res, before, after, lo, ro = do_add(family, left, right, mode)
-    what = "%s: %s %s %s" % (family, json.dumps(left), "+=" if mode == "iadd" else "+", json.dumps(right))
+    if right["t"] == "same":
+        right = left
+    what = "%s: %s %s %s" % (family, json.dumps(left), {"iadd": "+=", "kw": "+ (keyword call)"}.get(mode, "+"), json.dumps(right))
     side = "reflected" if left["t"] != "hdr" else "left"
     cls = "%s-%s-%s" % (ref_kind(family, left) if left["t"] == "hdr" else left["t"],
                         ref_kind(family, right) if right["t"] == "hdr" else right["t"], side)
@@ -355,6 +436,7 @@ def oracle_add(family, left, right, mode="add"):
     return None
 
 
+@strict_warnings
 def oracle_chain(family, first, steps):
     """acc = header object; then acc = acc + op or acc = op + acc, repeatedly"""
     acc = build_operand(family, first)
@@ -379,15 +461,33 @@ def oracle_chain(family, first, steps):
     return None
 
 
-def oracle_property(family, op, pre=None):
-    """request.<attr> = operand stores text that reads back as the equivalent header; None removes; del removes"""
-    req = blank_request({KEY[family]: pre} if pre is not None else None)
+@strict_warnings
+def request_class(name):
+    from webob import Request
+    from webob.request import BaseRequest
+    if name == "BaseRequest":
+        return BaseRequest
+    if name == "MyRequest":
+        return type("MyRequest", (Request,), {"charset": "latin-1"})
+    return Request
+
+
+def oracle_property(family, op, pre=None, how="setattr", cls="Request"):
+    """request.<attr> = operand stores text that reads back as the equivalent header; None removes; del removes.
+    how: setattr | init_kw (Request(environ, attr=value)) | blank_kw (Request.blank('/', attr=value)); cls: request class"""
     attr, key = ATTR[family], KEY[family]
     o = build_operand(family, op)
     before = snapshot(family, o)
-    what = "request.%s = %s" % (attr, json.dumps(op))
+    what = "%s: request.%s = %s (%s)" % (cls, attr, json.dumps(op), how)
+    R = request_class(cls)
     try:
-        setattr(req, attr, o)
+        if how == "setattr":
+            req = R(dict(blank_request({KEY[family]: pre} if pre is not None else None).environ))
+            setattr(req, attr, o)
+        elif how == "init_kw":
+            req = R(dict(blank_request({KEY[family]: pre} if pre is not None else None).environ), **{attr: o})
+        else:
+            req = R.blank("/", **{attr: o})
     except Exception as e:  # noqa
         return ("property:set-raises", "%s raised %s" % (what, type(e).__name__))
     if snapshot(family, o) != before:
@@ -426,6 +526,7 @@ def oracle_property(family, op, pre=None):
     return None
 
 
+@strict_warnings
 def oracle_property_iadd(family, pre, op):
     """request.<attr> += operand (get, +, set)"""
     req = blank_request({KEY[family]: pre} if pre is not None else None)
@@ -442,6 +543,107 @@ def oracle_property_iadd(family, pre, op):
     if got != want:
         return ("add:elements:%s" % ("empty-valid-header-operand" if empty else "property-iadd"),
                 "%s reads back elements %r, expected %r" % (what, got, want))
+    return None
+
+
+# =========================================================================== outside the statement's domain
+class Obj:
+    def __init__(self, text):
+        self.text = text
+
+    def __str__(self):
+        return self.text
+
+
+def outside_value(family, name):
+    """values the statement does not quantify over (other operand types, ill-typed containers, odd qualities, CR / LF,
+    text beyond latin-1); second component: may the operation refuse with TypeError / ValueError?"""
+    import decimal
+    import fractions
+    it = {"accept": "a/b", "charset": "utf-8", "encoding": "gzip", "language": "en"}[family]
+    other = {"accept": "charset", "charset": "language", "encoding": "charset", "language": "charset"}[family]
+    A = ap()
+    table = {
+        "true": (True, False), "int5": (5, False), "int0": (0, False), "float": (3.5, False),
+        "bytes": (it.encode(), False), "bytearray": (bytearray(it.encode()), False),
+        "set": ({it}, False), "frozenset": (frozenset([it]), False),
+        "generator": ((x for x in [it]), False), "iterator": (iter([it]), False), "range": (range(2), False),
+        "obj_valid": (Obj(it), False), "obj_empty": (Obj(""), False), "obj_invalid": (Obj("x y"), False),
+        "other_family_valid": (getattr(A, CREATE[other])(it), False), "other_family_noheader": (getattr(A, CREATE[other])(None), False),
+        "list_none": ([it, None], True), "list_int": ([5], True), "list_bytes": ([it.encode()], True),
+        "tuple_arity1": ([(it,)], True), "tuple_arity4": ([(it, 0.5, "", "")], True), "nested_list": ([[it, [0.5]]], True),
+        "dict_mixed_values": ({it: "x", it + "x": 0.5}, True), "dict_none_value": ({it: None}, True),
+        "q_nan": ([(it, float("nan"))], False), "q_inf": ([(it, float("inf"))], False), "q_negative": ([(it, -0.5)], False),
+        "q_many_decimals": ([(it, 0.12345)], False), "q_exponent": ([(it, 1e-05)], False), "q_str": ([(it, "0.5")], False),
+        "q_none": ([(it, None)], False), "q_bool": ([(it, True), (it + "x", False)], False),
+        "q_decimal": ([(it, decimal.Decimal("0.25"))], False), "q_fraction": ([(it, fractions.Fraction(1, 2))], False),
+        "q_huge_int": ([(it, 10 ** 30)], False),
+        "text_trailing_lf": (it + "\n", True), "text_inner_crlf": (it + ",\r\n " + it, True), "text_cr": ("\r" + it, True),
+        "list_item_lf": ([it + "\n", it], True),
+        "text_nonlatin": (it + "\u0100", False), "text_astral": (it + "\U0001f600", False), "text_surrogate": (it + "\udc80", False),
+        "text_nul": (it + "\x00", False), "text_long": (", ".join([it] * 500), False),
+    }
+    return table[name]
+
+
+OUTSIDE_NAMES = ["true", "int5", "int0", "float", "bytes", "bytearray", "set", "frozenset", "generator", "iterator", "range",
+                 "obj_valid", "obj_empty", "obj_invalid", "other_family_valid", "other_family_noheader", "list_none", "list_int",
+                 "list_bytes", "tuple_arity1", "tuple_arity4", "nested_list", "dict_mixed_values", "dict_none_value", "q_nan",
+                 "q_inf", "q_negative", "q_many_decimals", "q_exponent", "q_str", "q_none", "q_bool", "q_decimal", "q_fraction",
+                 "q_huge_int", "text_trailing_lf", "text_inner_crlf", "text_cr", "list_item_lf", "text_nonlatin", "text_astral",
+                 "text_surrogate", "text_nul", "text_long"]
+OUTSIDE_HEADERS = {"accept": ["a/b;q=0.5, c/d", "", None, "x y", "a/b\n"], "charset": ["utf-8;q=0.5, *", None, "x y", "utf-8\n"],
+                   "encoding": ["gzip;q=0.5, *", "", None, "x y", "gzip\n"], "language": ["en;q=0.5, *", None, "x y", "en\n"]}
+
+
+def oracle_outside(family, hv, name, side):
+    """What remains meaningful outside the statement's domain: the operation either refuses with TypeError / ValueError / LookupError / AttributeError (only
+    where the value is ill-typed or carries CR / LF) or returns a header object of the family whose elements begin (reflected:
+    end) with the header's own elements; the header object is unchanged; assigning the value to the request property stores a
+    str (or removes the key), reads back without raising, and a fresh Request agrees."""
+    create = getattr(ap(), CREATE[family])
+    h = create(hv)
+    value, may_refuse = outside_value(family, name)
+    may_refuse = may_refuse or (hv is not None and ("\n" in hv or "\r" in hv))
+    base = observe(family, h)
+    what = "%s: %r %s <%s>" % (family, hv, {"left": "+", "reflected": "(+) reflected", "iadd": "+=", "property": "assigned:"}[side], name)
+    attr, key = ATTR[family], KEY[family]
+    try:
+        if side == "property":
+            req = blank_request()
+            setattr(req, attr, value)
+            stored = req.environ.get(key, None)
+            if stored is not None and not isinstance(stored, str):
+                return ("outside:property-stores-non-str", "%s stored %r" % (what, stored))
+            back = getattr(req, attr)
+            from webob import Request
+            if observe(family, getattr(Request(req.environ), attr)) != observe(family, back):
+                return ("outside:fresh-request-differs", "%s: a fresh Request reads something else" % what)
+            return None
+        if side == "left":
+            res = h + value
+        elif side == "reflected":
+            res = value + h
+        else:
+            x = h
+            x += value
+            res = x
+    except (TypeError, ValueError, LookupError, AttributeError) as e:
+        if not may_refuse:
+            return ("outside:raises:" + name, "%s raised %s (%s)" % (what, type(e).__name__, e))
+        if observe(family, h) != base:
+            return ("outside:state-changed", "%s refused but changed the header object" % what)
+        return None
+    except Exception as e:  # noqa
+        return ("outside:raises:" + name, "%s raised %s" % (what, type(e).__name__))
+    if observe(family, h) != base:
+        return ("outside:state-changed", "%s changed the header object" % what)
+    if kind_of(family, res).startswith("other"):
+        return ("outside:result-type", "%s returned a %s" % (what, type(res).__name__))
+    own, got = elements_of(family, h), elements_of(family, res)
+    ok = (got[len(got) - len(own):] == own) if side == "reflected" else (got[:len(own)] == own)
+    if own and not ok:
+        return ("outside:own-elements-lost", "%s has elements %r, the header's own %r are not kept in place" % (what, got, own))
     return None
 
 
@@ -662,7 +864,22 @@ def r_seq_item(family, rng):
     return [r_item(family, rng), r_k(rng)]
 
 
+SHAPES = {"str": [None, None, None, "strsub"], "list": [None, None, "listsub"], "tuple": [None, None, "tuplesub"],
+          "dict": [None, None, "odict", "multidict", "dictsub"]}
+
+
 def r_operand(family, rng, allow_hdr=True):
+    op = r_operand_plain(family, rng, allow_hdr)
+    if op["t"] in SHAPES:
+        sh = rng.choice(SHAPES[op["t"]])
+        if sh:
+            op["shape"] = sh
+        if sh == "multidict" and op["items"] and rng.random() < 0.5:
+            op["items"].append(list(rng.choice(op["items"])))        # a repeated key, which only a MultiDict can carry
+    return op
+
+
+def r_operand_plain(family, rng, allow_hdr=True):
     x = rng.random()
     if allow_hdr and x < 0.30:
         return r_hdr(family, rng)
@@ -696,6 +913,13 @@ def r_operand(family, rng, allow_hdr=True):
 
 
 def r_hdr(family, rng):
+    op = r_hdr_plain(family, rng)
+    if rng.random() < 0.2:
+        op["sub"] = True
+    return op
+
+
+def r_hdr_plain(family, rng):
     y = rng.random()
     if y < 0.6:
         return {"t": "hdr", "v": c03.r_header(family, rng)}
@@ -727,6 +951,33 @@ def fixed_operands(family):
     if family == "accept":
         ops += [{"t": "list", "items": [[it, 1000, ";e=1"], [it, 500, ";e=\"a b\";f"], [it, 0, ""]]},
                 {"t": "dict", "items": [[it, [500, ";e=1"]], [it + "x", [1000, ""]], [it + "y", 1000]]}]
+    return ops
+
+
+def case_variants(it):
+    return list(dict.fromkeys([it, it.upper(), it.capitalize(), it.lower()]))[:3]
+
+
+def extra_operands(family):
+    """configurations and argument shapes beyond the plain table: header objects of application subclasses, the alternative
+    Python types with the same denotation, keys / items differing only in case"""
+    el = {"accept": ["text/html", "a/b;p=\"x y\";q=0.5;e=1"], "charset": ["utf-8", "iso-8859-5;q=0.5"],
+          "encoding": ["gzip", "identity;q=0"], "language": ["en-gb", "de;q=0.25"]}[family]
+    it = {"accept": "text/plain", "charset": "utf-7", "encoding": "br", "language": "fr-CH"}[family]
+    ops = [{"t": "hdr", "v": ", ".join(el), "sub": True}, {"t": "hdr", "v": INVALID[family][2], "sub": True},
+           {"t": "hdr", "v": None, "sub": True},
+           {"t": "str", "v": el[1], "shape": "strsub"}, {"t": "str", "v": "", "shape": "strsub"},
+           {"t": "list", "items": [el[0], [it, 500]], "shape": "listsub"}, {"t": "list", "items": [], "shape": "listsub"},
+           {"t": "tuple", "items": [[it, 0]], "shape": "tuplesub"},
+           {"t": "dict", "items": [[it, 500], [it + "x", 1000]], "shape": "odict"},
+           {"t": "dict", "items": [], "shape": "odict"},
+           {"t": "dict", "items": [[it, 500], [it + "x", 1000], [it, 250]], "shape": "multidict"},
+           {"t": "dict", "items": [], "shape": "multidict"},
+           {"t": "dict", "items": [[it, 2000]], "shape": "dictsub"},
+           {"t": "dict", "items": [[k, q] for k, q in zip(case_variants(it), (500, 1000, 500))]},
+           {"t": "list", "items": [it, it.upper(), [it.capitalize(), 500]]}]
+    for e in EMPTYISH[family][:1]:
+        ops.append({"t": "hdr", "v": e, "sub": True})
     return ops
 
 
@@ -838,7 +1089,9 @@ def run_oracle(case):
     if k == "chain":
         return oracle_chain(f, case["first"], [tuple(s) for s in case["steps"]])
     if k == "property":
-        return oracle_property(f, case["op"], case.get("pre"))
+        return oracle_property(f, case["op"], case.get("pre"), case.get("how", "setattr"), case.get("cls", "Request"))
+    if k == "outside":
+        return oracle_outside(f, case["h"], case["what"], case["side"])
     if k == "property_iadd":
         return oracle_property_iadd(f, case["pre"], case["op"])
     if k == "history":
@@ -978,7 +1231,7 @@ def run(ctx):
     vals = list(values_upto(ctx.scale(3, 4)))
     vrng = ctx.sub_rng("values")
     vals += ["".join(vrng.choice(VALUE_ALPHA + ["b", ";", ",", "=", "~", "\x7e", "\xff", "!"]) for _ in range(vrng.randrange(4, 9)))
-             for _ in range(ctx.scale(150, 1500))]
+             for _ in range(ctx.scale(80, 1500))]
     vals = list(dict.fromkeys(vals))
     quote_cases = [(cstr(v), impl_quote(v), {"kind": "quote", "value": v}) for v in vals]
 
@@ -990,7 +1243,7 @@ def run(ctx):
         obs = "obs_accept" if family == "accept" else "obs_simple"
         parse_fn = c03.FAMILIES[family][3]
         # ---- str / parsed of header objects built from text
-        ws = [c03.r_header(family, rng) for _ in range(ctx.scale(250, 3000))]
+        ws = [c03.r_header(family, rng) for _ in range(ctx.scale(170, 3000))]
         ws += [c03.mutate(w, rng) for w in ws[:ctx.scale(60, 600)]] + EMPTYISH[family] + INVALID[family]
         ws = [w for w in dict.fromkeys(ws) if text_ok(w)]
         cases = [(cstr(w), impl_obs_value(family, w), {"kind": "str", "family": family, "value": w}) for w in ws]
@@ -998,7 +1251,10 @@ def run(ctx):
         # ---- additions
         F = fixed_operands(family)
         pairs = [(l, r) for l in F for r in F if (l["t"] == "hdr" or r["t"] == "hdr")]
-        pairs += [r_add_pair(family, rng) for _ in range(ctx.scale(250, 4000))]
+        hdrs = [o for o in F if o["t"] == "hdr"]
+        X = extra_operands(family)
+        pairs += [(h, x) for x in X for h in hdrs[:2] + hdrs[-1:]] + [(x, h) for x in X for h in hdrs[1:3]]
+        pairs += [r_add_pair(family, rng) for _ in range(ctx.scale(180, 4000))]
         pairs = [p for p in pairs if op_ok(p[0]) and op_ok(p[1])]
         cases = []
         for l, r in pairs:
@@ -1009,7 +1265,7 @@ def run(ctx):
               else "(fun c => obs_add_simple %s (fst c) (snd c))" % FAM_TERM[family])
         jobs.append(("add-" + family, fn, cases, "(%s * %s)" % (OPND_T[family], OPND_T[family])))
         # ---- property assignment, read back, copy
-        ops = F + [r_operand(family, rng) for _ in range(ctx.scale(200, 3000))]
+        ops = F + X + [r_operand(family, rng) for _ in range(ctx.scale(120, 3000))]
         ops = [o for o in ops if op_ok(o)]
         cases = [(c_opnd(family, o), impl_prop(family, o), {"kind": "property", "family": family, "op": o, "pre": "x;;"})
                  for o in ops]
@@ -1070,13 +1326,20 @@ def run(ctx):
         ctx.oracle_count("oracle-str-" + family, n, nt)
         n = nt = 0
         F = fixed_operands(family)
-        todo = [(l, r, m) for l in F for r in F if (l["t"] == "hdr" or r["t"] == "hdr") for m in ("add", "iadd")]
+        # the whole table, incl. (empty valid header) x (valid / invalid / None / empty operand of every type) x
+        # (left, reflected, +=, keyword call)
+        todo = [(l, r, m) for l in F for r in F if (l["t"] == "hdr" or r["t"] == "hdr") for m in ("add", "iadd", "kw")]
+        hdrs = [o for o in F if o["t"] == "hdr"]
+        X = extra_operands(family)
+        todo += [(h, x, m) for h in hdrs + [x for x in X if x["t"] == "hdr"] for x in X for m in ("add", "iadd", "kw")]
+        todo += [(x, h, m) for h in hdrs + [x for x in X if x["t"] == "hdr"] for x in X for m in ("add", "iadd", "kw")]
+        todo += [(h, {"t": "same"}, m) for h in hdrs + [x for x in X if x["t"] == "hdr"] for m in ("add", "iadd", "kw")]
         for _ in range(ctx.scale(3000, 40000)):
             l, r = r_add_pair(family, rng)
             todo.append((l, r, rng.choice(["add", "add", "iadd"])))
         for l, r, m in todo:
             n += 1
-            nt += 1 if (ref_operand_elements(family, l) and ref_operand_elements(family, r)) else 0
+            nt += 1 if (ref_operand_elements(family, l) and ref_operand_elements(family, l if r["t"] == "same" else r)) else 0
             check_case(ctx, {"kind": "add", "family": family, "left": l, "right": r, "mode": m}, "oracle-add-" + family)
         ctx.oracle_count("oracle-add-" + family, n, nt)
         n = 0
@@ -1087,14 +1350,27 @@ def run(ctx):
             check_case(ctx, {"kind": "chain", "family": family, "first": first, "steps": steps}, "oracle-chain-" + family)
         ctx.oracle_count("oracle-chain-" + family, n, n)
         n = 0
-        for o in F + [r_operand(family, rng) for _ in range(ctx.scale(1000, 12000))]:
+        for o in F + X + [r_operand(family, rng) for _ in range(ctx.scale(1000, 12000))]:
             n += 2
             check_case(ctx, {"kind": "property", "family": family, "op": o,
-                             "pre": rng.choice([None, "x;;", c03.r_header(family, rng)])}, "oracle-property-" + family)
+                             "pre": rng.choice([None, "x;;", c03.r_header(family, rng)]),
+                             "how": rng.choice(["setattr", "setattr", "init_kw", "blank_kw"]),
+                             "cls": rng.choice(["Request", "Request", "BaseRequest", "MyRequest"])}, "oracle-property-" + family)
             check_case(ctx, {"kind": "property_iadd", "family": family, "op": o,
                              "pre": rng.choice([None, "x;;"] + EMPTYISH[family] + [c03.r_header(family, rng)] * 3)},
                        "oracle-property-" + family)
         ctx.oracle_count("oracle-property-" + family, n, n)
+        # ---- outside the statement's domain: other operand types, ill-typed containers, odd qualities, CR / LF, non-latin text
+        n = 0
+        for hv in OUTSIDE_HEADERS[family]:
+            for name in OUTSIDE_NAMES:
+                for side in ("left", "reflected", "iadd", "property"):
+                    if side == "reflected" and name.startswith("other_family"):
+                        continue        # the left operand's class decides: not this family's code
+                    n += 1
+                    check_case(ctx, {"kind": "outside", "family": family, "h": hv, "what": name, "side": side},
+                               "oracle-outside-" + family)
+        ctx.oracle_count("oracle-outside-" + family, n, n)
         # ---- histories: long-lived objects reused across different calls; call order
         n = nt = 0
         for _ in range(ctx.scale(800, 8000)):
